@@ -22,7 +22,7 @@ def params_prologue(header, pfx=''):
     for item in [x.strip() for x in m.group(1).split(',') if x.strip()]:
         mi = re.fullmatch(r'ignore<(\w+)>\.\.\.', item)
         if mi:
-            out.append('vx_pos += VX_PACK_%s%s;' % (pfx, mi.group(1))); continue
+            out.append('vx_skip(VX_PACK_%s%s); vx_pos += VX_PACK_%s%s;' % (pfx, mi.group(1), pfx, mi.group(1))); continue
         mi = re.fullmatch(r'(\w+)\s*&&\s*\.\.\.', item)
         if mi:
             out.append('/* %s: the remaining arguments, unnamed */' % item); continue
@@ -76,6 +76,8 @@ PRELUDE = r'''
 int vx_thrown;
 typedef const void* vx_val;
 enum { VX_LVALUE = 1, VX_RVALUE = 2 };
+enum { VX_REF_PARAM = 0, VX_VALUE_PARAM = 1 };
+#define VX_IGNORE_BY_VALUE ((VX_IGNORE_PARAM) == VX_VALUE_PARAM)
 struct vx_ref { vx_val v; int cat; bool is_const; };        /* an argument: the object, how it was passed, whether it may be modified (moved from) */
 static inline struct vx_ref vx_lvalue(struct vx_ref r) { r.cat = VX_LVALUE; return r; }
 static inline struct vx_ref vx_rvalue(struct vx_ref r) { r.cat = VX_RVALUE; return r; }
@@ -96,18 +98,23 @@ static inline struct vx_ref vx_construct_T(struct vx_ref a) { g_ct_calls++; g_ct
 int g_ap_calls, g_ap_kind; struct vx_ref g_ap_cont, g_ap_elem;
 static inline void vx_container_emplace_back(struct vx_ref c, struct vx_ref e) { g_ap_calls++; g_ap_kind = 1; g_ap_cont = c; g_ap_elem = e; }
 static inline void vx_container_push_back(struct vx_ref c, struct vx_ref e) { g_ap_calls++; g_ap_kind = 2; g_ap_cont = c; g_ap_elem = e; }
+/* a skipped argument initialises an `ignore<k>` object: through ignore's constructor parameter.  `T&&` binds a reference (nothing is read);
+   a by-value parameter `T` would copy or move-construct from the argument, i.e. read / consume it (R20) */
+bool g_skipped_read;
+static inline void vx_skip(size_t k) { if (k > 0 && VX_IGNORE_BY_VALUE) g_skipped_read = 1; }
 #define VX_ARGS_OK (n >= 1 && n <= PH_ARGS && __CPROVER_r_ok(args, n * sizeof(struct vx_ref)))
 '''
 PACK = lambda macro, rx: (macro, rx, None)
 UNIT = Unit('ftors', PRELUDE, fns, consts=[
+    PACK('VX_IGNORE_PARAM', r'struct ignore\s*\{\s*template<typename T>\s*constexpr ignore\(\s*((?:const\s+)?T\s*(?:&&|&)?)\s*\)\s*\{\}\s*\};'),
     PACK('VX_PACK_I', r'template<size_t X, typename = std::make_index_sequence<([^>]+)>>\s*class element'),
     PACK('VX_PACK_Skip', r'template<typename T, std::size_t FromIdx = 1, typename = std::make_index_sequence<([^>]+)>>\s*struct construct'),
     PACK('VX_PACK_Skip1', r'typename = std::make_index_sequence<([^>]+)>,\s*typename = std::make_index_sequence<[^>]+>,\s*bool container_first = [^>]+>\s*struct emplace_back'),
     PACK('VX_PACK_Skip2', r'typename = std::make_index_sequence<[^>]+>,\s*typename = std::make_index_sequence<([^>]+)>,\s*bool container_first = [^>]+>\s*struct emplace_back'),
     PACK('VX_PACK_PB_Skip1', r'typename = std::make_index_sequence<([^>]+)>,\s*typename = std::make_index_sequence<[^>]+>,\s*bool container_first = [^>]+>\s*struct push_back'),
     PACK('VX_PACK_PB_Skip2', r'typename = std::make_index_sequence<[^>]+>,\s*typename = std::make_index_sequence<([^>]+)>,\s*bool container_first = [^>]+>\s*struct push_back')])
-UNIT.const_rules = [S(r'std::min\(', 'VX_MIN(', min=0), S(r'std::max\(', 'VX_MAX(', min=0), S(r'container_first = ', '', min=0)]
-UNIT.facts = [r'template<size_t>\s*struct ignore\s*\{\s*template<typename T>\s*constexpr ignore\(T&&\)\{\}\s*\};', r'private:\s*T v;\s*\};']
+UNIT.const_rules = [S(r'^\s*(const\s+)?T\s*(&&|&)\s*$', 'VX_REF_PARAM', min=0), S(r'^\s*(const\s+)?T\s*$', 'VX_VALUE_PARAM', min=0), S(r'std::min\(', 'VX_MIN(', min=0), S(r'std::max\(', 'VX_MAX(', min=0), S(r'container_first = ', '', min=0)]
+UNIT.facts = [r'private:\s*T v;\s*\};']
 apply_spec(UNIT.fns, os.path.join(HERE, '..', 'contracts', 'ftors.spec'))
 
 from vx import native as _N
@@ -116,6 +123,7 @@ from vx import native as _N
 def _twin_ftors(o):
     return _N.TWIN_HEAD + r"""#include <vector>
 #include <string>
+#include <memory>
 static int copies = 0;
 struct Tr { int v = 0; Tr() = default; explicit Tr(int v) : v(v) {} Tr(Tr&& o) noexcept : v(o.v) {} Tr& operator=(Tr&& o) noexcept { v = o.v; return *this; }
             Tr(const Tr& o) : v(o.v) { ++copies; } Tr& operator=(const Tr& o) { v = o.v; ++copies; return *this; } };
@@ -126,6 +134,7 @@ int main() {
     using namespace ftors;
     chk(_e1(11, 22, 33) == 11 && _e2(11, 22, 33) == 22 && _e3(11, 22, 33) == 33 && _e9(1, 2, 3, 4, 5, 6, 7, 8, 9) == 9 && _e5(1, 2, 3, 4, 5, 6, 7, 8, 9) == 5, "_eN does not return the N-th argument");
     { std::string s = "abc"; std::string&& r = _e2(0, std::move(s), 1); chk(&r == &s, "_eN does not forward the very object it was given"); }
+    { auto p = std::make_unique<int>(1); int r = _e2(std::move(p), 5); chk(r == 5 && p != nullptr, "_e2 consumed (moved from) the argument it skips"); }
     chk(construct<W, 2>{}(7, 8, 9).from == 8 && construct<W>{}(7, 8).from == 7, "construct<T, I> does not build T from the I-th argument");
     chk(val(42)(1, 2, 3) == 42 && create<int>{}(5, 6) == 0, "val / create depend on their arguments");
     for (int variant = 0; variant < 4; ++variant) {
